@@ -63,6 +63,7 @@ def run(ck, F):
     for r in (K.R_diag, K.R_cover, K.R_lex):
         ck.rules[r]['floor'] = 13
     ck.rules[K.R_atom]['floor'] = 2
+    ck.rules[K.R_guard]['floor'] = 15
     ck.extra['tables'] = sorted(tables)
     RT = ck.rule('C04.tables-used', 'every ordered table of name_factory / expr_factory is reached by an analysed request', floor=13)
     for cls in (NF, EF):
